@@ -60,6 +60,11 @@ func opProc(fields []string) string {
 	ctx, body, run := fields[0], unhx(fields[1]), fields[3]
 	src := procProgram(ctx, body)
 	res := safeParse(src)
+	if len(fields) > 5 && fields[5] != "" {
+		// other process bodies compiled BEFORE the one under test, in the same source: each body is checked on its own
+		// (variables typed by last assignment within the body, unknown names strings), so they must not matter
+		src = unhx(fields[5]) + "\n" + src
+	}
 	v, class := safeCompile(src)
 	if v == nil {
 		return res + "\tCOMPILE " + class + "\tRUN SKIP"
